@@ -209,6 +209,12 @@ func vC01DescentCase(rnd *rand.Rand, tr *vC01Trace, caseNo int) {
 		qname = z.name // the apex
 		kinds = append(kinds, "a-apex")
 	}
+	// the question type rides on every referral: an RRSIG question (whose answer cannot be verified) must not change what
+	// the referrals hand down
+	if plain && rnd.Intn(5) == 0 {
+		qtype = dns.TypeRRSIG
+		kinds = append(kinds, "q:rrsig")
+	}
 	for j := 0; j < deep; j++ {
 		qname = x.sub([]string{"a", "b"}[j], qname)
 	}
@@ -666,12 +672,29 @@ func vC01DescentCase(rnd *rand.Rand, tr *vC01Trace, caseNo int) {
 		if !cd && chainSecure && !genuine && len(x.anchors) > 0 && (len(oe.out.Answer) > 0 || len(oe.out.Ns) > 0 || oe.out.Rcode == dns.RcodeNameError || oe.out.Rcode == dns.RcodeSuccess) {
 			goFail = which + ": altered data accepted under a signed chain"
 		}
-		if !cd && chainSecure && genuine && plain && len(x.anchors) > 0 && !oe.out.AuthenticatedData {
+		if !cd && chainSecure && genuine && plain && qtype != dns.TypeRRSIG && len(x.anchors) > 0 && !oe.out.AuthenticatedData {
 			goFail = which + ": a zone under a signed chain was treated as unsigned"
 		}
 		if !cd && len(x.anchors) == 0 && (len(oe.out.Answer) > 0 || len(oe.out.Ns) > 0) {
 			goFail = which + ": unvalidated data served without a trust anchor"
 		}
+	}
+	// "a zone is treated as unsigned only on a validated proof": a cut the parent delegates with a signed DS RRset, below a
+	// chain that is secure down to the parent, whose referral was not touched, is never filed with an EMPTY DS set
+	emptySecureCut := false
+	if !cd && len(x.anchors) > 0 && (genuineAll || finalOnly) {
+		for _, zz := range x.zones[1:] {
+			if zz.cut == "secure" && !x.insecureAbove(zz) {
+				if v, filed := cacheDesc[zz.name]; filed && v != nil {
+					if l, ok := v.([]string); ok && len(l) == 0 {
+						emptySecureCut = true
+					}
+				}
+			}
+		}
+	}
+	if emptySecureCut && goFail == "" {
+		goFail = "a secure delegation was filed with an empty DS set: the zone is treated as unsigned without a proof"
 	}
 	desc := map[string]any{"world": kinds, "qname": qname, "qtype": dns.TypeToString[qtype], "cd": cd, "served_first": servedDesc(tr1), "served_again": servedDesc(tr2),
 		"first": fmt.Sprint(err1), "again": fmt.Sprint(err2), "delegation_cache": cacheDesc, "stray_questions": log.stray, "chain_secure": chainSecure, "genuine": genuine}
@@ -684,6 +707,12 @@ func vC01DescentCase(rnd *rand.Rand, tr *vC01Trace, caseNo int) {
 	rec := map[string]any{"k": "descent:" + strings.Join(kinds, "+"), "coq": x.w.wrap(envCoq + body), "nontrivial": true, "desc": desc}
 	if goFail != "" {
 		rec["go_fail"] = goFail
+		// known finding rrsig-question-insecure-delegation, by what was OBSERVED: the question type was RRSIG, a secure cut
+		// was filed with an empty DS set, and no reply carried AD (what follows from the zone being taken as unsigned)
+		noAD := (out1 == nil || !out1.AuthenticatedData) && (out2 == nil || !out2.AuthenticatedData)
+		if qtype == dns.TypeRRSIG && emptySecureCut && noAD {
+			rec["fkey"] = "rrsig-question-insecure-delegation"
+		}
 	}
 	tr.emit(rec)
 	_ = caseNo
